@@ -96,15 +96,27 @@ URI_REF = {
 }
 
 
+_FX = [None]
+
+
+def _follow_const(e, depth=0):
+    """A plain (non-trait) named constant stands for its initialiser."""
+    e = T.peel(e)
+    while e.get("k") == "Const" and not e.get("self_ty") and _FX[0] is not None and e.get("def") in _FX[0].thir and depth < 4:
+        e = T.peel(_FX[0].thir[e["def"]]["body"])
+        depth += 1
+    return e
+
+
 def req_norm(e):
     """Canonical text of a Requirements expression: None | One(X) | Any(X,Y) | All(X,Y)."""
-    e = T.peel(e)
+    e = _follow_const(e)
     if e.get("k") != "Adt" or not e["adt"].endswith("capabilities::Requirements"):
         return "?" + T.expr_str(e)
     v = e["variant"]
     if v == "None":
         return NONE
-    inner = T.peel(e["fields"][0]["expr"])
+    inner = _follow_const(e["fields"][0]["expr"])
     caps = []
     if inner.get("k") == "Array":
         caps = [cap_name(x) for x in inner["fields"]]
@@ -116,7 +128,7 @@ def req_norm(e):
 
 
 def cap_name(e):
-    e = T.peel(e)
+    e = _follow_const(e)
     if e.get("k") == "Adt" and e["adt"].endswith("capabilities::Capability"):
         return e["variant"]
     return "?" + T.expr_str(e)
@@ -124,6 +136,7 @@ def cap_name(e):
 
 def run(ctx):
     chk, fx = ctx.chk, ctx.facts
+    _FX[0] = fx
     chk.explanation = EXPLANATION
     chk.assumptions += [
         "reference tables: RFC 6241 §8.2-8.9 (capabilities and the operations/parameters they enable), §10.4 capability URNs; Junos operations require http://xml.juniper.net/netconf/junos/1.0",
